@@ -143,6 +143,25 @@ static Wire c15(Reader& r) {
         o.push_back(0); dump(o,m3);
         return o;
     }
+    case 6: {
+        size_t fa=r.n(), fb=r.n(), fc=r.n(), flags=r.n(), id=r.n(); MeshIn mi=getMeshIn(r); skipTable(r); skipTable(r); skipTable(r);
+        if (fa>3 || fb>3 || fc>3) throw Reader::Malformed();
+        Mesh* m;
+        try { m = mkmesh(flags,mi); } catch (std::exception&) { return Wire{30}; }
+        o.push_back(0); dump(o,*m);
+        const std::string f1 = fname("cha",id,fa), f2 = fname("chb",id,fb), f3 = fname("chc",id,fc);
+        try { m->save(f1); } catch (std::exception&) { unlink(f1.c_str()); o.push_back(32); return o; }
+        int rc = tool("om_mesh_convert -i "+f1+" -o "+f2);
+        unlink(f1.c_str());
+        if (rc==0) rc = tool("om_mesh_convert -i "+f2+" -o "+f3);
+        unlink(f2.c_str());
+        if (rc!=0) { unlink(f3.c_str()); o.push_back(32); return o; }
+        Mesh m3;
+        try { m3.load(f3,false); } catch (std::exception&) { unlink(f3.c_str()); o.push_back(32); return o; }
+        unlink(f3.c_str());
+        o.push_back(0); dump(o,m3);
+        return o;
+    }
     default: throw Reader::Malformed();
     }
 }
